@@ -5,12 +5,14 @@
 (* parseWithRecovery), over an abstract token stream.                      *)
 (*                                                                         *)
 (* An input is a list of segments separated by semicolons.  A segment is   *)
-(* a statement: its first token may or may not be one of the keywords the  *)
-(* recovery loop resynchronises on (SELECT, INSERT, ... but not SHOW,      *)
-(* DESCRIBE, ..., nor a corrupted first token), the other tokens never are *)
-(* (the side condition of property C12), and it is either well-formed      *)
-(* (strict parsing of it alone succeeds) or malformed.  Stray semicolons   *)
-(* may precede, follow or double the separators.                           *)
+(* a statement: it is either well-formed (strict parsing of it alone       *)
+(* succeeds) or malformed; its first token is or is not one of the         *)
+(* keywords the recovery loop resynchronises on - a well-formed one always *)
+(* is (the loop knows every keyword a statement can start with: SELECT,    *)
+(* INSERT, ... SHOW, DESCRIBE, EXPLAIN, REPLACE), a malformed one may      *)
+(* start with anything; the other tokens never are (the side condition of  *)
+(* property C12).  Stray semicolons may precede, follow or double the      *)
+(* separators.                                                             *)
 (*                                                                         *)
 (* parseStatement is abstract: on a well-formed segment it consumes the    *)
 (* whole segment; on a malformed one it consumes j tokens of the segment   *)
@@ -31,7 +33,7 @@ CONSTANTS MaxSegs,     \* segments per input
           Emit
 
 \* ---- inputs ---------------------------------------------------------------
-Seg == [good : BOOLEAN, len : 1..MaxLen, kw : BOOLEAN]
+Seg == {s \in [good : BOOLEAN, len : 1..MaxLen, kw : BOOLEAN] : s.good => s.kw}
 Inputs == [segs : UNION {[1..n -> Seg] : n \in 0..MaxSegs},
            lead : 0..1,            \* stray semicolons before the first statement
            dbl  : BOOLEAN,         \* separators are doubled (";;")
